@@ -542,14 +542,294 @@ def py_part(out):
                f"{'true' if upd and none and none[-1] > upd[0] else 'false'}\n")
 
 
+# ----------------------------------------------------------------------------
+# Python: the method bodies as Lean functions on the record `Py` (round 5)
+# ----------------------------------------------------------------------------
+# attribute -> field of `Pyunicorn.Circuit.Py` holding a matrix
+MAT_ATTRS = {"sparse_Adm": "sparse_Adm", "sparse_R": "sparse_R", "resistances": "resistances"}
+STORE_ATTR = "_effective_resistances"
+# attributes outside the rational model: the igraph twin of the admittance matrix (no query of the
+# property reads it) and the complex flag (selects a dtype only)
+IGNORED_ATTRS = {"adm_graph", "flagComplex"}
+GETTERS = ("get_admittance", "get_R", "admittance_lapacian")
+MUTATORS = ("update_admittance", "update_R", "update_resistances")
+
+
+def src(n):
+    return ast.unparse(n).replace("\n", " ")
+
+
+def is_self_attr(n, attr=None):
+    return isinstance(n, ast.Attribute) and isinstance(n.value, ast.Name) and n.value.id == "self" \
+        and (attr is None or n.attr == attr)
+
+
+def py_expr(e, env, where):
+    """Python expression -> (Lean term, kind); kinds: mat, vec, rat, nat, edges, edge"""
+    if isinstance(e, ast.Name):
+        need(e.id in env, f"{where}: unknown name `{e.id}`")
+        return e.id, env[e.id]
+    if is_self_attr(e, "N"):
+        return "self.N", "nat"
+    if is_self_attr(e) and e.attr in MAT_ATTRS:
+        return f"self.{MAT_ATTRS[e.attr]}", "mat"
+    if isinstance(e, ast.Constant) and isinstance(e.value, (int, float)) \
+            and not isinstance(e.value, bool):
+        return lean_num(repr(float(e.value)) if isinstance(e.value, float) else str(e.value)), "rat"
+    if isinstance(e, ast.Subscript):
+        base, kind = py_expr(e.value, env, where)
+        if kind == "edge":
+            need(isinstance(e.slice, ast.Constant) and e.slice.value in (0, 1),
+                 f"{where}: subscript `{src(e)}`")
+            return f"{base}.{e.slice.value + 1}", "nat"
+        if kind == "mat":
+            need(isinstance(e.slice, ast.Tuple) and len(e.slice.elts) == 2,
+                 f"{where}: subscript `{src(e)}`")
+            ij = [py_expr(x, env, where) for x in e.slice.elts]
+            need(all(k == "nat" for _, k in ij), f"{where}: subscript `{src(e)}`")
+            return f"({base} {ij[0][0]} {ij[1][0]})", "rat"
+        raise Shape(f"{where}: subscript `{src(e)}`")
+    if isinstance(e, ast.BinOp):
+        a, ka = py_expr(e.left, env, where)
+        b, kb = py_expr(e.right, env, where)
+        if isinstance(e.op, ast.Sub) and ka == kb == "mat":
+            return f"(matSub {a} {b})", "mat"
+        ops = {ast.Add: "+", ast.Sub: "-", ast.Mult: "*", ast.Div: "/"}
+        if type(e.op) in ops and ka == kb == "rat":
+            return f"({a} {ops[type(e.op)]} {b})", "rat"
+        raise Shape(f"{where}: `{src(e)}` outside the fragment")
+    if isinstance(e, ast.Call):
+        f = src(e.func)
+        args = e.args
+        kws = {k.arg: k.value for k in e.keywords}
+        if is_self_attr(e.func) and not args and not kws:
+            m = e.func.attr
+            if m == "edge_list":
+                return "self.edge_list", "edges"
+            if m in GETTERS:
+                return f"({m} self)", "mat"
+        if f == "list" and len(args) == 1 and not kws:
+            t, k = py_expr(args[0], env, where)
+            need(k == "edges", f"{where}: `{src(e)}`")
+            return t, k
+        if isinstance(e.func, ast.Attribute) and e.func.attr == "toarray" and not args and not kws:
+            t, k = py_expr(e.func.value, env, where)
+            need(k == "mat", f"{where}: `{src(e)}`")
+            return t, k
+        if f == "sparse.lil_matrix" and len(args) == 1 and set(kws) <= {"dtype"}:
+            if isinstance(args[0], ast.Tuple):
+                need([src(x) for x in args[0].elts] == ["self.N", "self.N"],
+                     f"{where}: shape of `{src(e)}`")
+                return "lilZeros", "mat"
+            need(not kws, f"{where}: `{src(e)}`")
+            t, k = py_expr(args[0], env, where)
+            need(k == "mat", f"{where}: `{src(e)}`")
+            return t, k
+        if f == "np.linalg.pinv" and len(args) == 1 and set(kws) <= {"rcond"}:
+            t, k = py_expr(args[0], env, where)      # the cut-off: `rcond_matches_source`
+            need(k == "mat", f"{where}: `{src(e)}`")
+            return f"(npPinv pinv self.N {t})", "mat"
+        if f == "np.diag" and len(args) == 1 and not kws:
+            t, k = py_expr(args[0], env, where)
+            need(k == "vec", f"{where}: `{src(e)}`")
+            return f"(npDiag {t})", "mat"
+        if f == "sum" and len(args) == 1 and not kws:
+            t, k = py_expr(args[0], env, where)
+            need(k == "mat", f"{where}: `{src(e)}`")
+            return f"(pySum self.N {t})", "vec"
+    raise Shape(f"{where}: `{src(e)}` outside the fragment")
+
+
+def skippable_if(st):
+    """conditionals that only choose a dtype, convert the argument to an array, or print"""
+    for x in st.body + st.orelse:
+        if isinstance(x, ast.Assign) and len(x.targets) == 1 and isinstance(x.targets[0], ast.Name):
+            if x.targets[0].id == "dtype":
+                continue
+            if x.targets[0].id == "resistances" and src(x.value) == "np.array(resistances)" \
+                    and src(st.test) == "not isinstance(resistances, np.ndarray)":
+                continue
+        if isinstance(x, ast.Expr) and isinstance(x.value, ast.Call) and src(x.value.func) == "print":
+            continue
+        return False
+    return True
+
+
+def py_stmts(stmts, env, where, getter=False):
+    """statement list -> Lean `let` lines (the object is threaded through as `self`)"""
+    lines = []
+    env = dict(env)
+    for st in stmts:
+        text = src(st)
+        w = f"{where}: `{text[:70]}`"
+        if isinstance(st, ast.Expr) and isinstance(st.value, ast.Constant):
+            continue
+        if isinstance(st, ast.Return):
+            need(getter and st is stmts[-1] and st.value is not None, f"{w}: return")
+            t, k = py_expr(st.value, env, w)
+            need(k == "mat", f"{w}: returns a {k}")
+            lines.append(t)
+            return lines
+        need(not getter, f"{w}: statement in a getter")
+        if isinstance(st, ast.If):
+            need(skippable_if(st), f"{w}: conditional control flow")
+            lines.append(f"-- skipped (dtype / array conversion / print only): if {src(st.test)}: …")
+            continue
+        if isinstance(st, ast.Assign):
+            need(len(st.targets) == 1, w)
+            tg = st.targets[0]
+            if is_self_attr(tg):
+                if tg.attr in IGNORED_ATTRS:
+                    lines.append(f"-- not modelled: {text[:90]}")
+                    continue
+                if tg.attr == STORE_ATTR:
+                    need(src(st.value) == "None", f"{w}: the store is assigned a value")
+                    lines.append("let self := { self with effective_resistances := none }")
+                    continue
+                need(tg.attr in MAT_ATTRS, f"{w}: attribute outside the model")
+                if src(st.value) == "None":
+                    t = "pyNoneMat"
+                else:
+                    t, k = py_expr(st.value, env, w)
+                    need(k == "mat", f"{w}: a {k} assigned to a matrix attribute")
+                lines.append(f"let self := {{ self with {MAT_ATTRS[tg.attr]} := {t} }}")
+                continue
+            if isinstance(tg, ast.Name):
+                need(tg.id not in ("self", "pinv"), w)
+                t, k = py_expr(st.value, env, w)
+                lines.append(f"let {tg.id} := {t}")
+                env[tg.id] = k
+                continue
+            raise Shape(f"{w}: assignment target")
+        if isinstance(st, ast.For):
+            need(isinstance(st.target, ast.Name) and not st.orelse, f"{w}: loop header")
+            it, k = py_expr(st.iter, env, w)
+            need(k == "edges", f"{w}: loop over a {k}")
+            var = st.target.id
+            need(len(st.body) == 1 and isinstance(st.body[0], ast.Assign)
+                 and len(st.body[0].targets) == 1
+                 and isinstance(st.body[0].targets[0], ast.Subscript)
+                 and is_self_attr(st.body[0].targets[0].value)
+                 and st.body[0].targets[0].value.attr in MAT_ATTRS
+                 and isinstance(st.body[0].targets[0].slice, ast.Tuple)
+                 and len(st.body[0].targets[0].slice.elts) == 2,
+                 f"{w}: the loop body is not one assignment `self.<matrix>[a, b] = value`")
+            asg = st.body[0]
+            benv = dict(env, **{var: "edge"})
+            fld = MAT_ATTRS[asg.targets[0].value.attr]
+            ij = [py_expr(x, benv, w) for x in asg.targets[0].slice.elts]
+            need(all(kk == "nat" for _, kk in ij), f"{w}: target subscript")
+            v, kv = py_expr(asg.value, benv, w)
+            need(kv == "rat", f"{w}: stored value is a {kv}")
+            lines.append(f"let self := {it}.foldl (fun (self : Py) {var} =>")
+            lines.append(f"    {{ self with {fld} := setItem self.{fld} {ij[0][0]} {ij[1][0]} {v} }}) self")
+            continue
+        if isinstance(st, ast.Expr) and isinstance(st.value, ast.Call):
+            c = st.value
+            if is_self_attr(c.func) and c.func.attr in MUTATORS and not c.keywords:
+                args = [py_expr(a, env, w) for a in c.args]
+                need([k for _, k in args] == (["mat"] if c.func.attr == "update_resistances" else []),
+                     f"{w}: arguments")
+                lines.append(f"let self := {c.func.attr} pinv self"
+                             + "".join(f" {t}" for t, _ in args))
+                continue
+            if isinstance(c.func, ast.Attribute) and is_self_attr(c.func.value) \
+                    and c.func.value.attr in IGNORED_ATTRS:
+                lines.append(f"-- not modelled: {text[:90]}")
+                continue
+            if src(c.func) == "print":
+                continue
+        raise Shape(f"{w}: statement outside the fragment")
+    need(not getter, f"{where}: no return")
+    lines.append("self")
+    return lines
+
+
+BODY_STUBS = {
+    "get_admittance": "def get_admittance (self : Py) : Mat := pyNoneMat\n",
+    "get_R": "def get_R (self : Py) : Mat := pyNoneMat\n",
+    "admittance_lapacian": "def admittance_lapacian (self : Py) : Mat := pyNoneMat\n",
+    "update_admittance": "def update_admittance (pinv : Nat → Mat → LMat) (self : Py) : Py := self\n",
+    "update_R": "def update_R (pinv : Nat → Mat → LMat) (self : Py) : Py := self\n",
+    "update_resistances": "def update_resistances (pinv : Nat → Mat → LMat) (self : Py) "
+                          "(resistances : Mat) : Py := self\n",
+    "init_tail": "def init_tail (pinv : Nat → Mat → LMat) (self : Py) (resistances : Mat) : Py := self\n",
+}
+
+
+def py_bodies(out):
+    """the method bodies; a method outside the fragment gets a stub (the driver still builds) and
+    `pyBodiesTranslated = false` (the tie theorems do not)"""
+    path = os.path.join(REPO, PYFILE)
+    tree = ast.parse(open(path).read(), path)
+    cls = [n for n in tree.body if isinstance(n, ast.ClassDef) and n.name == "ResNetwork"]
+    need(cls, "class ResNetwork not found")
+    cls = cls[0]
+    errors = []
+
+    def emit(name, make):
+        try:
+            out.append(make())
+        except Shape as e:
+            errors.append(str(e))
+            out.append(f"/-- STUB: `{name}` is outside the translated fragment -/\n" + BODY_STUBS[name])
+
+    def getter(name):
+        def make():
+            fn = py_method(cls, name)
+            need([a.arg for a in fn.args.args] == ["self"], f"{name}: parameters")
+            ls = py_stmts(fn.body, {}, name, getter=True)
+            return (f"/-- `ResNetwork.{name}`: `{src(body_of(fn)[-1])}` -/\n"
+                    f"def {name} (self : Py) : Mat :=\n  " + "\n  ".join(ls) + "\n")
+        emit(name, make)
+
+    def mutator(name, params):
+        def make():
+            fn = py_method(cls, name)
+            need([a.arg for a in fn.args.args] == ["self"] + params, f"{name}: parameters")
+            ls = py_stmts(fn.body, {p: "mat" for p in params}, name)
+            return (f"/-- `ResNetwork.{name}`, statement by statement -/\n"
+                    f"def {name} (pinv : Nat → Mat → LMat) (self : Py)"
+                    + "".join(f" ({p} : Mat)" for p in params) + " : Py :=\n  "
+                    + "\n  ".join(ls) + "\n")
+        emit(name, make)
+
+    for g in GETTERS:
+        getter(g)
+    mutator("update_admittance", [])
+    mutator("update_R", [])
+    mutator("update_resistances", ["resistances"])
+
+    def make_init():
+        fn = py_method(cls, "__init__")
+        b = body_of(fn)
+        par = [k for k, s in enumerate(b) if isinstance(s, ast.Expr) and isinstance(s.value, ast.Call)
+               and src(s.value.func) == "GeoNetwork.__init__"]
+        need(len(par) == 1, "__init__: one call GeoNetwork.__init__(...)")
+        kws = {k.arg: src(k.value) for k in b[par[0]].value.keywords}
+        need(kws.get("adjacency") == "adjacency", "__init__: GeoNetwork.__init__ is not handed `adjacency`")
+        ls = py_stmts(b[par[0] + 1:], {"resistances": "mat"}, "__init__")
+        return ("/-- the statements of `ResNetwork.__init__` after `GeoNetwork.__init__(self, grid, "
+                "adjacency=adjacency, …)` -/\n"
+                "def init_tail (pinv : Nat → Mat → LMat) (self : Py) (resistances : Mat) : Py :=\n  "
+                + "\n  ".join(ls) + "\n")
+    emit("init_tail", make_init)
+    out.append("/-- every method body above was translated (no stub) -/\n"
+               f"def pyBodiesTranslated : Bool := {'false' if errors else 'true'}\n")
+    if errors:
+        raise Shape("; ".join(errors))
+
+
 def main():
-    out = ["/- GENERATED by translate/gen_C18.py from the current working tree — do not edit. -/",
+    out = ["import Pyunicorn.Model.CircuitPy",
+           "/- GENERATED by translate/gen_C18.py from the current working tree — do not edit. -/",
            "set_option linter.unusedVariables false",
-           "namespace Pyunicorn.Generated.StructC18\n",
+           "namespace Pyunicorn.Generated.StructC18",
+           "open Pyunicorn.Circuit\n",
            "/-- C `fabs` on exact values -/",
            "def fabs (x : Rat) : Rat := if x < 0 then -x else x\n"]
     errors = []
-    for part in (c_part, py_part):
+    for part in (c_part, py_part, py_bodies):
         try:
             part(out)
         except Shape as e:
